@@ -330,8 +330,21 @@ func c07extract(t *toks, transfer bool) (string, []string) {
 		s  string
 		th int
 		of float32
-	}{{"f", 1, 0}, {"h", 4, 0.05}, {"f", 3, 10}, {"h", 2, 1}} {
+	}{{"f", 1, 0}, {"h", 4, 0.05}, {"f", 3, 10}, {"h", 2, 1}, {"hs", 4, 0}, {"hs", 2, 0.01}} {
+		if cfg.s == "hs" { // the origin completes concurrent downloads out of order
+			c18orig.mu.Lock()
+			c18orig.stagger = true
+			c18orig.mu.Unlock()
+			cfg.s = "h"
+		}
 		o2, lg, err2 := run(filepath.Join(dir, "out2.pmtiles"), cfg.s, cfg.th, cfg.of)
+		c18orig.mu.Lock()
+		staggered := c18orig.stagger
+		c18orig.stagger = false
+		c18orig.mu.Unlock()
+		if staggered {
+			cfg.s = "h(out-of-order completion)"
+		}
 		if err2 != nil || sha256.Sum256(o2) != sum {
 			viol = append(viol, fmt.Sprintf("output differs for source=%s threads=%d overfetch=%v (err=%v)", cfg.s, cfg.th, cfg.of, err2))
 		}
@@ -574,23 +587,37 @@ func c07(r *rng, tier string, o *out) {
 	for c := 0; c < ne; c++ {
 		line := genExtractCase(r)
 		c07emit(o, "C07", line, true, "extract")
+		c07emit(o, "C07", genExtractCaseK(r, true), true, "extract-scattered-ranges")
 	}
 }
 
-func genExtractCase(r *rng) string {
+func genExtractCase(r *rng) string { return genExtractCaseK(r, false) }
+
+// scattered: contents of the lowest zooms are reused higher up and the request leaves the lowest zooms out, so the source ranges
+// needed are many and far apart (several requests even with a generous overfetch)
+func genExtractCaseK(r *rng, scattered bool) string {
 	maxz := uint8(1 + r.intn(3))
+	if scattered {
+		maxz = uint8(2 + r.intn(2))
+	}
 	var es []Ent
 	var data []byte
 	id := hilBase(uint(r.intn(2)))
-	for id < hilBase(uint(maxz)+1) && len(es) < 25 {
+	for id < hilBase(uint(maxz)+1) && (len(es) < 25 || scattered && len(es) < 60) {
 		run := uint32(1 + r.intn(3))
 		if r.chance(15) {
 			run = uint32(3 + r.intn(8)) // may cross a zoom boundary
 		}
 		l := uint32(1 + r.intn(12))
 		off := uint64(len(data))
-		if len(es) > 1 && r.chance(25) {
+		if scattered {
+			l = uint32(8 + r.intn(60))
+		}
+		if len(es) > 1 && (r.chance(25) || scattered && id >= hilBase(2) && r.chance(30)) {
 			p := es[r.intn(len(es))]
+			if scattered {
+				p = es[r.intn(minInt(len(es), 5))]
+			}
 			off, l = p.Off, p.Len
 		} else {
 			data = append(data, r.bytes(int(l))...)
@@ -613,6 +640,10 @@ func genExtractCase(r *rng) string {
 		}
 	}
 	of := overfetches[r.intn(len(overfetches))]
+	if scattered {
+		minz, maxzReq = 2, -1
+		of = overfetches[r.intn(3)]
+	}
 	meta := canonJSON([]byte(fmt.Sprintf(`{"name":"x%d","k":[1,2]}`, r.intn(100))))
 	return fmt.Sprintf("extract %d %d none %d %d %s %d %d %s", minz, maxzReq, math.Float32bits(of), 1+r.intn(4), []string{"f", "h"}[r.intn(2)], r.intn(2), gzi, archStr(h, es, data, meta))
 }
@@ -644,5 +675,14 @@ func c19(r *rng, tier string, o *out) {
 		line = strings.Replace(line, " f ", " h ", 1)
 		line = "extracth" + strings.TrimPrefix(line, "extract")
 		c07emit(o, "C19", line, true, "extract-http")
+		line = strings.Replace(genExtractCaseK(r, true), " f ", " h ", 1)
+		c07emit(o, "C19", "extracth"+strings.TrimPrefix(line, "extract"), true, "extract-http-scattered-ranges")
 	}
+}
+
+func minInt(a, b int) int {
+	if a < b {
+		return a
+	}
+	return b
 }
